@@ -12,6 +12,9 @@ PANICKY_CALLEE_MARKS = ('::unwrap', '::expect', '::index', '::index_mut', 'panic
                         'slice_start_index', 'slice_end_index', 'Vec::<T, A>::drain', 'String::remove', '::split_off',
                         '::chunks', '::windows', 'char::from_u32_unchecked', 'to_digit')
 
+# total functions whose names contain a panicky mark (`unwrap_or` contains `unwrap`); closures they call are analysed as code
+NEVER_PANIC_SUFFIXES = ('::unwrap_or', '::unwrap_or_else', '::unwrap_or_default', '::expect_none_or')
+
 # Sites whose safety rests on a reachable-state invariant that is not statically decided (DESIGN 4 C19.4).
 # key: (function suffix, site kind) -> reason
 INVARIANTS = {
@@ -42,7 +45,7 @@ def inventory(prog, entries):
                 c = prog.callee(t) or ''
                 if t['t'] is None:
                     sites[(name, t['at'], c)] = 'diverging call %s' % c
-                elif any(m in c for m in PANICKY_CALLEE_MARKS) and c not in prog.fns:
+                elif any(m in c for m in PANICKY_CALLEE_MARKS) and c not in prog.fns and not c.endswith(NEVER_PANIC_SUFFIXES):
                     sites[(name, t['at'], c)] = 'call %s' % c
     return sites, reach
 
